@@ -331,6 +331,15 @@ SITES["C16"] = [
          atoms={"self._numbers": ("cached", O), "self._vocab": ("vocab", O)}),
 ]
 
+SITES["C07"] += [
+    dict(file="metrics/predict.py", cls="PredictMetric", fn="align_scores", mode="branch", select="pred_m & ~rate_m", lean="missingScoresBranch",
+         atoms={"self.missing_scores == 'error'": ("scoresAreError", B), "self.missing_truth == 'error'": ("truthIsError", B),
+                "(nbad := np.sum(pred_m & ~rate_m))": ("nRatedUnscored", I), "(nbad := np.sum(rate_m & ~pred_m))": ("nScoredUnrated", I)}),
+    dict(file="metrics/predict.py", cls="PredictMetric", fn="align_scores", mode="branch", select="rate_m & ~pred_m", lean="missingTruthBranch",
+         atoms={"self.missing_scores == 'error'": ("scoresAreError", B), "self.missing_truth == 'error'": ("truthIsError", B),
+                "(nbad := np.sum(pred_m & ~rate_m))": ("nRatedUnscored", I), "(nbad := np.sum(rate_m & ~pred_m))": ("nScoredUnrated", I)}),
+]
+
 SITES["C11"] = SITES["C11"] + SITES["C05"]          # the samplers' fall-back paths must hand the generator on (C11) as well as `test_only` (C05)
 
 def generate(pid, src_root):
